@@ -313,6 +313,19 @@ def solve(ob, timeout_ms=10000, axioms=(), use_cvc5=True, extra_hyps=()):
         s.add(*hyps)
         s.add(neg)
         r = _timed_check(s, timeout_ms)
+        if r == z3.unknown:
+            # retry with other seeds (quantifier instantiation order is seed dependent); verdicts never flip
+            # between sat and unsat, only unknown may become decided
+            for seed in (11, 23):
+                s2 = z3.Solver()
+                s2.set("timeout", timeout_ms)
+                s2.set("random_seed", seed)
+                s2.add(*hyps)
+                s2.add(neg)
+                r2 = _timed_check(s2, timeout_ms)
+                if r2 != z3.unknown:
+                    r, s = r2, s2
+                    break
     ob.time = time.time() - t0
     ob.backend = "z3"
     if r == z3.unsat:
